@@ -84,6 +84,11 @@ let run () =
       (* C16: names in source order without repetition; value = the participating group *)
       let distinct = List.fold_left (fun acc nm -> if nm = [] || List.mem nm acc then acc else acc @ [nm]) [] !names in
       if List.map fst impl <> distinct then viol "C16" "named_groups-names-not-source-order";
+      let (_, _, caps) = List.nth (List.rev !ms) (ios mi) in
+      List.iter (fun (nm, r) ->
+        let parts = List.filter_map (fun x -> x) (List.mapi (fun k c -> if k < List.length !names && List.nth !names k = nm then c else None) caps) in
+        let expect = (match parts with [] -> None | x :: _ -> Some x) in
+        if r <> expect then viol "C16" (Printf.sprintf "named_groups(%s)=%s,participating=%s" (hexs nm) (show_r r) (show_r expect))) impl;
       if ios len <> ios cnt then viol "C16" (Printf.sprintf "named_groups.len()=%s,yielded=%s" len cnt)
     | "Q" :: "groups" :: mi :: cnt :: len :: rest ->
       incr checks;
